@@ -242,14 +242,21 @@ func runInBubble(s Script) (res vt.Result) {
 		cs, e = client.Connect(bg, &faultTransport{inner: &mcp.IOTransport{Reader: b, Writer: b}, reject: rejectNotes["client"]}, opts)
 		cerr <- e
 	}()
-	synctest.Wait()
-	select {
-	case e := <-cerr:
-		if e != nil {
-			res.Failf("harness: connect: %v", e)
-			return
+	connected := false
+	for i := 0; i < 120 && !connected; i++ { // Connect may take virtual time; only "never" fails the set-up
+		synctest.Wait()
+		select {
+		case e := <-cerr:
+			if e != nil {
+				res.Failf("harness: connect: %v", e)
+				return
+			}
+			connected = true
+		default:
+			time.Sleep(time.Second)
 		}
-	default:
+	}
+	if !connected {
 		res.Failf("harness: connect did not return")
 		return
 	}
@@ -433,8 +440,11 @@ func runInBubble(s Script) (res vt.Result) {
 		// is closed only after they returned (healthy link only)
 		if !w.broken {
 			for _, h := range w.hs {
+				// (a cancellation is not blamed on the local Close once the peer has been asked to close as well: the
+				// handler may be seeing the peer go away; the links arrangement has the same guard)
+				pc := w.closeCallClock[map[string]string{"client": "server", "server": "client"}[h.side]]
 				if cc := w.closeCallClock[h.side]; cc != 0 && h.startClock < cc {
-					if h.ctxDone {
+					if h.ctxDone && !(pc != 0 && pc < h.endClock) {
 						res.Failf("step %d: the %s handler %d was already running when %s.Close() was called and had its context cancelled by it", i, h.side, h.k, h.side)
 					}
 					if tc := w.transportClosed[h.side]; tc != 0 && (!h.ended || h.endClock > tc) {
@@ -446,8 +456,14 @@ func runInBubble(s Script) (res vt.Result) {
 		// (d) once the link is gone in both directions nobody can cancel or be answered any more: the SDK
 		// documents (jsonrpc2 readIncoming) that in-flight incoming requests are then cancelled, so that
 		// handlers waiting on their context return. No handler may still be parked with a live context.
+		// Narrowed to the situation in which shutdown could otherwise never finish by itself: a local Close is
+		// already waiting for that handler (nobody is left who could cancel it or receive its answer). A handler
+		// on a side nobody closed is simply still running; the property does not say the SDK must stop it.
 		if w.vanished {
 			for _, h := range w.hs {
+				if w.closeCallClock[h.side] == 0 {
+					continue
+				}
 				if !h.ended {
 					res.Failf("step %d: the link is gone (an end of the pipe was closed) but the %s handler %d is still parked with a live context", i, h.side, h.k)
 				}
@@ -493,7 +509,7 @@ func runInBubble(s Script) (res vt.Result) {
 		}
 	}
 	synctest.Wait()
-	time.Sleep(10 * time.Second)
+	time.Sleep(3 * time.Minute) // the property sets no deadline: generous
 	synctest.Wait()
 	// Every handler has returned by now: a Close the script issued must return on its own, whatever
 	// the other side does (it must not need the peer to close first).
